@@ -34,6 +34,7 @@ type Gen struct {
 	tier      string
 	funcIndex map[string]*ssa.Function
 	declInfos []declInfo
+	wGlobals  map[string]bool
 	declNames map[string]bool
 }
 
@@ -372,4 +373,62 @@ func (g *Gen) filePkg(file string) *types.Package {
 		return g.findPackage(p)
 	}
 	return nil
+}
+
+// writtenGlobals: package-level variables of the repository that some function other than a package initialiser assigns.
+func (g *Gen) writtenGlobals() map[string]bool {
+	if g.wGlobals != nil {
+		return g.wGlobals
+	}
+	g.wGlobals = map[string]bool{}
+	var rootGlobal func(v ssa.Value) *ssa.Global
+	rootGlobal = func(v ssa.Value) *ssa.Global {
+		switch x := v.(type) {
+		case *ssa.Global:
+			return x
+		case *ssa.FieldAddr:
+			return rootGlobal(x.X)
+		case *ssa.IndexAddr:
+			return rootGlobal(x.X)
+		}
+		return nil
+	}
+	for _, sp := range g.prog.AllPackages() {
+		if !strings.HasPrefix(sp.Pkg.Path(), repoPrefix) {
+			continue
+		}
+		var fns []*ssa.Function
+		for _, m := range sp.Members {
+			if f, ok := m.(*ssa.Function); ok {
+				fns = append(fns, f)
+				fns = append(fns, f.AnonFuncs...)
+			}
+			if t, ok := m.(*ssa.Type); ok {
+				for _, tt := range []types.Type{t.Type(), types.NewPointer(t.Type())} {
+					ms := g.prog.MethodSets.MethodSet(tt)
+					for i := 0; i < ms.Len(); i++ {
+						if f := g.prog.MethodValue(ms.At(i)); f != nil {
+							fns = append(fns, f)
+							fns = append(fns, f.AnonFuncs...)
+						}
+					}
+				}
+			}
+		}
+		for _, f := range fns {
+			if f.Name() == "init" || strings.HasPrefix(f.Name(), "init#") || f.Synthetic != "" {
+				continue
+			}
+			for _, b := range f.Blocks {
+				for _, in := range b.Instrs {
+					if st, ok := in.(*ssa.Store); ok {
+						if gl := rootGlobal(st.Addr); gl != nil {
+							g.wGlobals["G|"+gl.Pkg.Pkg.Path()+"."+gl.Name()] = true
+						}
+					}
+				}
+			}
+		}
+	}
+	return g.wGlobals
 }
